@@ -10,5 +10,6 @@ CONSTANTS
   MaxGen = 3
   CfgSW = FALSE
   CfgNidl = FALSE
+  CfgSO = FALSE
 INVARIANTS InvC01
 CHECK_DEADLOCK FALSE
